@@ -310,19 +310,20 @@ func RoundTrip(fd *tr.FileDescriptor) M {
 //	ty    abstract Go type identity (0 = nil / not applicable)
 //	s     string answer (type descriptor name / file path of it)
 type Q struct {
-	Q    string `json:"q"`
-	F    int    `json:"f"`
-	Kind string `json:"kind"`
-	Pre  string `json:"pre"`
-	Name string `json:"name"`
-	N    int    `json:"n"`
-	M    int    `json:"m"`
-	RF   int    `json:"rf"`
-	RI   int    `json:"ri"`
-	RJ   int    `json:"rj"`
-	Ty   int    `json:"ty"`
-	S    string `json:"s"`
-	Err  string `json:"err"`
+	Q    string   `json:"q"`
+	F    int      `json:"f"`
+	Kind string   `json:"kind"`
+	Pre  string   `json:"pre"`
+	Name string   `json:"name"`
+	N    int      `json:"n"`
+	M    int      `json:"m"`
+	RF   int      `json:"rf"`
+	RI   int      `json:"ri"`
+	RJ   int      `json:"rj"`
+	Ty   int      `json:"ty"`
+	S    string   `json:"s"`
+	Sel  []string `json:"sel"`
+	Err  string   `json:"err"`
 }
 
 // TypeInfo is one generated (or stand-in) Go type of a case.
